@@ -12,7 +12,7 @@
 (*                 from the real code; every callback must match a line.   *)
 (***************************************************************************)
 EXTENDS Integers, Sequences, TLC, Json, IOUtils, FiniteSets
-CONSTANTS Mode, Cfg, Def, MaxCalls, Budget, NInst, Apis
+CONSTANTS Mode, Cfg, Def, MaxCalls, Budget, BudgetPerCall, NInst, Apis, DirOps, DirEvs
 
 Trace == IF Mode = "trace" THEN ndJsonDeserialize(IOEnv.TRACE) ELSE <<>>
 NL == Len(Trace)
@@ -54,8 +54,8 @@ RevIdx(sq, P(_)) == LET n == Len(sq)
 RECURSIVE AddNew(_, _)
 AddNew(acc, xs) == IF xs = <<>> THEN acc
                    ELSE AddNew(IF \E k \in 1..Len(acc) : acc[k] = Head(xs) THEN acc ELSE Append(acc, Head(xs)), Tail(xs))
-RECURSIVE SetToSeq(_)
-SetToSeq(S) == IF S = {} THEN <<>> ELSE LET x == CHOOSE y \in S : TRUE IN <<x>> \o SetToSeq(S \ {x})
+RECURSIVE SetAsSeq(_)
+SetAsSeq(S) == IF S = {} THEN <<>> ELSE LET x == CHOOSE y \in S : TRUE IN <<x>> \o SetAsSeq(S \ {x})
 
 \* ---------------------------------------------------------------- state ids (documented numbering)
 \* sources top-down, then targets top-down, then remaining initial states, then the rest (explicit creation)
@@ -64,7 +64,7 @@ IdSeq(mm) == LET tb == MD(mm).table
                  tgts == [k \in 1..Len(tb) |-> tb[k].tgt]
                  base == AddNew(AddNew(AddNew(<<>>, srcs), tgts), MD(mm).init)
                  rest == StatesOf(mm) \ {base[k] : k \in 1..Len(base)}
-             IN base \o SetToSeq(rest)
+             IN base \o SetAsSeq(rest)
 IdOf(mm, st) == (CHOOSE k \in 1..Len(IdSeq(mm)) : IdSeq(mm)[k] = st) - 1
 Ids(mm, act) == [r \in 1..Len(act) |-> IdOf(mm, act[r])]
 
@@ -130,12 +130,18 @@ AfterPhase(mm, phase, srcst, tgtst) ==
    IN IF sw THEN tgtst ELSE srcst
 
 EventTypes == Def.events
-Directives == {[op |-> "none", on |-> "self", e |-> "", p |-> 0]} \cup {[op |-> "throw", on |-> "self", e |-> "", p |-> 0]} \cup
-              {[op |-> o, on |-> w, e |-> e, p |-> 0] : o \in {"pe", "enq"}, w \in {"self", "root"}, e \in EventTypes}
+\* directives a behaviour may execute (mc mode): DirOps \subseteq {"throw","pe","enq"}, DirEvs \subseteq EventTypes
+Directives == {[op |-> "none", on |-> "self", e |-> "", p |-> 0]}
+              \cup (IF "throw" \in DirOps THEN {[op |-> "throw", on |-> "self", e |-> "", p |-> 0]} ELSE {})
+              \cup {[op |-> o, on |-> w, e |-> e, p |-> 0] : o \in (DirOps \cap {"pe", "enq"}), w \in {"self", "root"}, e \in DirEvs}
 NoDir == [op |-> "none", on |-> "self", e |-> "", p |-> 0]
 PoolEv(occ, sq) == [kind |-> "ev", occ |-> occ, seq |-> sq, marked |-> FALSE, st |-> "", reg |-> 1]
 PoolCompl(st, rg) == [kind |-> "compl", occ |-> NoneOcc, seq |-> 0, marked |-> FALSE, st |-> st, reg |-> rg]
 InitHist == [mm \in Machines |-> [last |-> MD(mm).init]]
+\* ghost bookkeeping used only by the property formulas (Props.tla)
+LedgerKeys == {<<mm, st>> : mm \in Machines, st \in UNION {StatesOf(m2) : m2 \in Machines}} \cup {<<Def.root, Def.root>>}
+QPayloads(sq) == {sq[k].occ.p : k \in 1..Len(sq)}
+PoolPayloads(sq) == {sq[k].occ.p : k \in {kk \in 1..Len(sq) : sq[kk].kind = "ev" /\ ~sq[kk].marked}}
 
 (* --algorithm MSM {
 variables
@@ -150,7 +156,14 @@ variables
    hist = [ii \in Insts |-> InitHist],
    exc = FALSE, ret = 0, l = 1, cbn = 0, ncalls = 0, nextp = 1, budget = 0,
    gvmemo = [gg \in Def.guards |-> "u"],
-   obs = <<>>, wasreset = FALSE, path = <<>>, nothrow = FALSE, lastcall = [op |-> "none", i |-> 0, e |-> "", p |-> 0];
+   obs = <<>>, wasreset = FALSE, path = <<>>, nothrow = FALSE,
+   ledger = [ii \in Insts |-> [kk \in LedgerKeys |-> 0]],      \* entries minus exits per (machine, state)
+   sawexc = [ii \in Insts |-> FALSE],
+   stored = [ii \in Insts |-> [mm \in Machines |-> <<>>]],     \* payloads put into a queue / the pool, in order
+   dispd = [ii \in Insts |-> [mm \in Machines |-> <<>>]],      \* payloads dispatched, in order
+   defd = [ii \in Insts |-> {}],                                \* payloads that were deferred at least once
+   dropped = [ii \in Insts |-> {}],                             \* payloads swallowed by a blocking state or a documented queue reset
+   pre = [blocked |-> FALSE, quiet |-> TRUE, act |-> <<>>], lastcall = [op |-> "none", i |-> 0, e |-> "", p |-> 0];
 
 define {
   CurLine == Trace[l]
@@ -222,8 +235,10 @@ CB1: cbn := cbn + 1;
         };
      };
      obs := Append(obs, [k |-> c_kind, i |-> c_i, m |-> c_m, id |-> c_id, e |-> c_occ.t, p |-> c_occ.p, r |-> c_res, x |-> c_sid]);
+     if (c_kind = "en") { ledger[c_i][<<c_m, c_id>>] := ledger[c_i][<<c_m, c_id>>] + 1; }
+     else if (c_kind = "ex") { ledger[c_i][<<c_m, c_id>>] := ledger[c_i][<<c_m, c_id>>] - 1; };
 CB2: if (c_d.op = "throw") {
-        exc := TRUE;
+        exc := TRUE; sawexc[c_i] := TRUE;
      } else if (c_d.op = "pe") {
         obs := Append(obs, [k |-> "submit", i |-> c_i, m |-> IF c_d.on = "root" THEN Def.root ELSE c_m, id |-> "pe", e |-> c_d.e, p |-> c_d.p, r |-> TRUE, x |-> 0]);
         call PEI(c_i, IF c_d.on = "root" THEN Def.root ELSE c_m, [t |-> c_d.e, p |-> c_d.p], IF IsB THEN {"D"} ELSE {"direct"});
@@ -238,8 +253,9 @@ CB4: return;
 \* enqueue_event
 procedure Enqueue(e_i, e_m, e_occ)
 {
-E1: if (IsB) { mq[e_i][e_m] := Append(mq[e_i][e_m], [occ |-> e_occ, src |-> {"Q"}]); }
+E1: if (IsB) { mq[e_i][e_m] := Append(mq[e_i][e_m], [occ |-> e_occ, src |-> {"Q"}, bnd |-> e_i]); }
     else { pool[e_i][e_m] := Append(pool[e_i][e_m], PoolEv(e_occ, seqcnt[e_i][e_m] - 1)); };
+    stored[e_i][e_m] := Append(stored[e_i][e_m], e_occ.p);
 E2: return;
 }
 
@@ -268,9 +284,10 @@ procedure RunAct(a_i, a_m, a_acts, a_occ)
 {
 A2: while (a_k <= Len(a_acts)) {
        if (a_acts[a_k] = "defer") {
-          if (IsB) { dq[a_i][a_m] := Append(dq[a_i][a_m], [occ |-> a_occ, seq |-> curseq[a_i][a_m] + 1]); }
+          if (IsB) { dq[a_i][a_m] := Append(dq[a_i][a_m], [occ |-> a_occ, seq |-> curseq[a_i][a_m] + 1, bnd |-> a_i]); }
           else { pool[a_i][a_m] := Append(pool[a_i][a_m], PoolEv(a_occ, IF processing[a_i][a_m] THEN seqcnt[a_i][a_m] ELSE seqcnt[a_i][a_m] - 1)); };
           obs := Append(obs, [k |-> "deferred", i |-> a_i, m |-> a_m, id |-> "action", e |-> a_occ.t, p |-> a_occ.p, r |-> TRUE, x |-> 0]);
+          defd[a_i] := defd[a_i] \cup {a_occ.p};
        } else {
           call Callback("a", a_i, a_m, a_acts[a_k], a_occ, -1);
        };
@@ -296,7 +313,7 @@ X5: call Callback("ex", x_i, x_m, x_s, x_occ, -1);
 X6: if (~exc) {
        \* history_exit / history_impl::on_exit; back: the history policy decides about pending deferred events
        if (HistKind(x_s) # "none") { hist[x_i][x_s].last := active[x_i][x_s]; };
-       if (IsB /\ ~UseHist(x_s, x_occ.t)) { dq[x_i][x_s] := <<>>; };
+       if (IsB /\ ~UseHist(x_s, x_occ.t)) { dropped[x_i] := dropped[x_i] \cup QPayloads(dq[x_i][x_s]); dq[x_i][x_s] := <<>>; };
     };
 X7: return;
 }
@@ -312,7 +329,8 @@ N1r:   if (~exc /\ IsExitPt(n_m, n_s) /\ (IF IsB THEN Convertible(n_occ.t, MD(n_
           \* exit pseudo state: forward the (converted) event to the root machine
           obs := Append(obs, [k |-> "submit", i |-> n_i, m |-> Def.root, id |-> "xp", e |-> MD(n_m).xpev[n_s], p |-> n_occ.p, r |-> TRUE, x |-> 0]);
           if (IsB) { call PEI(n_i, Def.root, [t |-> MD(n_m).xpev[n_s], p |-> n_occ.p], {"D"}); }
-          else { pool[n_i][Def.root] := Append(pool[n_i][Def.root], PoolEv([t |-> MD(n_m).xpev[n_s], p |-> n_occ.p], seqcnt[n_i][Def.root] - 1)); };
+          else { pool[n_i][Def.root] := Append(pool[n_i][Def.root], PoolEv([t |-> MD(n_m).xpev[n_s], p |-> n_occ.p], seqcnt[n_i][Def.root] - 1));
+                 stored[n_i][Def.root] := Append(stored[n_i][Def.root], n_occ.p); };
        } else if (~exc /\ IsM /\ StateHasCompl(n_m, n_s) /\ n_ek = "restore") {
           \* on_state_entry_completed (for transition targets this is done by RowExec after the switch)
           pool[n_i][n_m] := <<PoolCompl(n_s, n_reg)>> \o pool[n_i][n_m];
@@ -323,22 +341,23 @@ N2: processing[n_i][n_s] := TRUE;
     running[n_i][n_s] := TRUE;
     if (IsB) { active[n_i][n_s] := EntryActive(n_i, n_s, n_named, n_occ.t); };
     call Callback("en", n_i, n_m, n_s, n_occ, -1);
-N3: if (exc) { return; }
+N3: if (exc) { processing[n_i][n_s] := FALSE; return; }     \* the flag is reset when an entry behaviour throws
     else {
        if (IsM) {
           active[n_i][n_s] := EntryActive(n_i, n_s, n_named, n_occ.t);
-          if (Len(n_named) # NReg(n_s) /\ ~UseHist(n_s, n_occ.t)) { pool[n_i][n_s] := <<>>; };
+          if (Len(n_named) # NReg(n_s) /\ ~UseHist(n_s, n_occ.t)) { dropped[n_i] := dropped[n_i] \cup PoolPayloads(pool[n_i][n_s]); pool[n_i][n_s] := <<>>; };
        };
     };
 N4: while (n_r <= NReg(n_s)) {
        \* mp11 with all regions named: entries in the order of the named list; otherwise region order
        call ExecEntry(n_i, n_s, IF IsM /\ Len(n_named) = NReg(n_s) THEN n_named[n_r] ELSE active[n_i][n_s][n_r], n_occ,
                       n_r, "restore", <<>>);
-N5:    if (exc) { return; } else { n_r := n_r + 1; };
+N5:    if (exc) { processing[n_i][n_s] := FALSE; return; } else { n_r := n_r + 1; };
     };
 N6: if (IsB /\ HasCompl(n_s)) { call PEI(n_i, n_s, NoneOcc, {"D"}); };      \* queued: processing is TRUE
-N6b: if (exc) { return; } else if (IsB /\ n_ek = "entrypt") { call PEI(n_i, n_s, n_occ, {"D"}); };   \* queued as well
-N7: if (exc) { return; } else { processing[n_i][n_s] := FALSE; };
+N6b: if (exc) { processing[n_i][n_s] := FALSE; return; } else if (IsB /\ n_ek = "entrypt") { call PEI(n_i, n_s, n_occ, {"D"}); };   \* queued as well
+N7: processing[n_i][n_s] := FALSE;
+    if (exc) { return; };
 N8: if (IsB) { call HandleDeferred(n_i, n_s, TRUE); };
 N9: if (exc) { return; } else if (IsB) { call DrainB(n_i, n_s, 0); } else { call PoolM(n_i, n_s, 0); };
 N9b: if (exc) { return; } else if (IsM /\ n_ek = "entrypt") { call PEI(n_i, n_s, n_occ, {"direct"}); };
@@ -347,12 +366,14 @@ N10: return;
 
 \* ---------------------------------------------------------------- back: do_handle_deferred
 procedure HandleDeferred(h_i, h_m, h_new)
-  variables h_notonly = FALSE, h_hd = [occ |-> NoneOcc, seq |-> 0];
+  variables h_notonly = FALSE, h_hd = [occ |-> NoneOcc, seq |-> 0, bnd |-> 0];
 {
 H0: if (h_new) { curseq[h_i][h_m] := curseq[h_i][h_m] + 1; };
 H2: while (dq[h_i][h_m] # <<>> /\ Head(dq[h_i][h_m]).seq = curseq[h_i][h_m] /\ ~h_notonly) {
        h_hd := Head(dq[h_i][h_m]); dq[h_i][h_m] := Tail(dq[h_i][h_m]);
-       call PEI(h_i, h_m, h_hd.occ, {"D", "F"});
+       \* the stored closure is bound to the machine object that created it (h_hd.bnd differs from h_i only after a copy)
+       if (h_hd.bnd # h_i) { obs := Append(obs, [k |-> "xbind", i |-> h_i, m |-> h_m, id |-> "dq", e |-> h_hd.occ.t, p |-> h_hd.occ.p, r |-> TRUE, x |-> h_hd.bnd]); };
+       call PEI(h_hd.bnd, h_m, h_hd.occ, {"D", "F"});
 H3:    if (exc) { return; } else if (ret # 0 /\ ret # 4) { h_notonly := TRUE; };
     };
 H4: if (h_notonly) {
@@ -364,11 +385,12 @@ H5: return;
 
 \* back: process_message_queue / execute_queued_events (q_max = 0: all, 1: single)
 procedure DrainB(q_i, q_m, q_max)
-  variables q_e = [occ |-> NoneOcc, src |-> {}], q_n = 0;
+  variables q_e = [occ |-> NoneOcc, src |-> {}, bnd |-> 0], q_n = 0;
 {
 Q2: while (mq[q_i][q_m] # <<>> /\ (q_max = 0 \/ q_n < q_max)) {
        q_e := Head(mq[q_i][q_m]); mq[q_i][q_m] := Tail(mq[q_i][q_m]); q_n := q_n + 1;
-       call PEI(q_i, q_m, q_e.occ, q_e.src);
+       if (q_e.bnd # q_i) { obs := Append(obs, [k |-> "xbind", i |-> q_i, m |-> q_m, id |-> "mq", e |-> q_e.occ.t, p |-> q_e.occ.p, r |-> TRUE, x |-> q_e.bnd]); };
+       call PEI(q_e.bnd, q_m, q_e.occ, q_e.src);
 Q3:    if (exc) { return; };
     };
 Q7: return;
@@ -385,6 +407,7 @@ K5: while (k_pk <= Len(pool[k_i][k_m]) /\ ~k_stop) {
           pool[k_i][k_m] := SubSeq(pool[k_i][k_m], 1, k_pk-1) \o SubSeq(pool[k_i][k_m], k_pk+1, Len(pool[k_i][k_m]));
        } else if (k_cur.kind = "ev" /\ (k_cur.seq = seqcnt[k_i][k_m] \/ IsDeferredM(k_i, k_m, k_cur.occ.t))) {
           k_pk := k_pk + 1;
+          if (IsDeferredM(k_i, k_m, k_cur.occ.t)) { defd[k_i] := defd[k_i] \cup {k_cur.occ.p}; };
        } else {
           pool[k_i][k_m][k_pk].marked := TRUE;
           if (k_cur.kind = "ev") { call PEI(k_i, k_m, k_cur.occ, {"pool"}); }
@@ -412,11 +435,13 @@ CM2: processing[m_i][m_m] := TRUE;
     obs := Append(obs, [k |-> "disp", i |-> m_i, m |-> m_m, id |-> m_st, e |-> "none", p |-> m_reg, r |-> TRUE, x |-> 0]);
     call Chain(m_i, m_m, m_reg, ComplCands(m_m, m_st), NoneOcc, FALSE);
 CM3: if (exc) {
-       exc := FALSE; call Callback("xc", m_i, m_m, "", NoneOcc, -1);
+       exc := FALSE;
+       obs := Append(obs, [k |-> "dispend", i |-> m_i, m |-> m_m, id |-> "", e |-> "none", p |-> -1, r |-> FALSE, x |-> 0]);
+       call Callback("xc", m_i, m_m, "", NoneOcc, -1);
 CM3b:   if (~exc) { ret := 0; };
     };
 CM4: if (exc) { return; } else {
-       obs := Append(obs, [k |-> "dispend", i |-> m_i, m |-> m_m, id |-> "", e |-> "none", p |-> ret, r |-> TRUE, x |-> 0]);
+       obs := Append(obs, [k |-> IF ret = 0 /\ obs[Len(obs)].k = "xc" THEN "complxc" ELSE "dispend", i |-> m_i, m |-> m_m, id |-> "", e |-> "none", p |-> ret, r |-> TRUE, x |-> 0]);
        processing[m_i][m_m] := FALSE; };
 CM5: return;
 }
@@ -426,15 +451,17 @@ procedure RowExec(r_i, r_m, r_r, r_c, r_occ)
   variables r_row = [src |-> "", ev |-> "", tgt |-> "", g |-> <<>>, a |-> <<>>, int |-> FALSE, ek |-> "plain", named |-> <<>>, xp |-> ""], r_res = 1;
 {
 R0: r_row := RowOf(r_m, r_c);
-R0b: if (IsB /\ r_row.xp # "" /\ ~(\E rr \in 1..NReg(r_row.src) : active[r_i][r_row.src][rr] = r_row.xp)) { ret := 0; goto R9; };
+R0b: \* a row leaving an exit point is a candidate only while that exit point is the active state of its submachine
+     if (r_row.xp # "" /\ ~((IsB \/ running[r_i][r_row.src]) /\ \E rr \in 1..NReg(r_row.src) : active[r_i][r_row.src][rr] = r_row.xp)) { ret := 0; goto R9; };
 R1: if (r_row.g # <<>>) {
        call EvalG(r_i, r_m, r_row.g, r_occ);
 R2:    if (exc) { return; } else if (ret = 0) { ret := 2; goto R9; };
     };
-R3: obs := Append(obs, [k |-> "take", i |-> r_i, m |-> r_m, id |-> r_c.tab, e |-> r_occ.t, p |-> r_c.idx, r |-> r_row.int, x |-> r_r]);
+R3: obs := Append(obs, [k |-> "take", i |-> r_i, m |-> r_m, id |-> IF r_c.tab = "itab" THEN r_c.st ELSE r_c.tab, e |-> r_occ.t, p |-> r_c.idx, r |-> r_row.int, x |-> r_r]);
 R3x: if (r_row.int) {
        call RunAct(r_i, r_m, r_row.a, r_occ);
-R3b:   goto R9;
+R3b:   if (~exc) { obs := Append(obs, [k |-> "taken", i |-> r_i, m |-> r_m, id |-> r_row.src, e |-> r_occ.t, p |-> r_c.idx, r |-> TRUE, x |-> r_r]); };
+       goto R9;
     } else if (r_c.tab # "smtab") { active[r_i][r_m][r_r] := AfterPhase(r_m, "guard", r_row.src, r_row.tgt); };
 R4: call ExecExit(r_i, r_m, r_row.src, r_occ);
 R5: if (exc) { return; } else {
@@ -462,8 +489,9 @@ C1: while (ch_k <= Len(ch_cands) /\ ~ch_done) {
        if (ch_cands[ch_k].c = "fwd") {
           call PEI(ch_i, ch_cands[ch_k].st, ch_occ, IF IsB THEN {} ELSE {"sub"});
        } else if (ch_cands[ch_k].c = "defer") {
-          dq[ch_i][ch_m] := Append(dq[ch_i][ch_m], [occ |-> ch_occ, seq |-> curseq[ch_i][ch_m] + 1]);
+          dq[ch_i][ch_m] := Append(dq[ch_i][ch_m], [occ |-> ch_occ, seq |-> curseq[ch_i][ch_m] + 1, bnd |-> ch_i]);
           obs := Append(obs, [k |-> "deferred", i |-> ch_i, m |-> ch_m, id |-> "state", e |-> ch_occ.t, p |-> ch_occ.p, r |-> TRUE, x |-> 0]);
+          defd[ch_i] := defd[ch_i] \cup {ch_occ.p};
           ret := 4;
        } else {
           call RowExec(ch_i, ch_m, ch_r, ch_cands[ch_k], ch_occ);
@@ -492,22 +520,23 @@ procedure DoProcess(d_i, d_m, d_occ, d_direct)
 D1: while (d_r <= NReg(d_m)) {
        if (IsB /\ ~Cfg.fct /\ Cands(d_m, active[d_i][d_m][d_r], d_occ.t) = <<>> /\ DefersEv(d_m, active[d_i][d_m][d_r], d_occ.t)) {
           \* defer_transition default cell
-          dq[d_i][d_m] := Append(dq[d_i][d_m], [occ |-> d_occ, seq |-> curseq[d_i][d_m] + 1]);
+          dq[d_i][d_m] := Append(dq[d_i][d_m], [occ |-> d_occ, seq |-> curseq[d_i][d_m] + 1, bnd |-> d_i]);
           obs := obs \o << [k |-> "disp", i |-> d_i, m |-> d_m, id |-> active[d_i][d_m][d_r], e |-> d_occ.t, p |-> d_r, r |-> TRUE, x |-> d_occ.p],
                            [k |-> "deferred", i |-> d_i, m |-> d_m, id |-> "state", e |-> d_occ.t, p |-> d_occ.p, r |-> TRUE, x |-> 0] >>;
+          defd[d_i] := defd[d_i] \cup {d_occ.p};
           ret := 4;
        } else {
           obs := Append(obs, [k |-> "disp", i |-> d_i, m |-> d_m, id |-> active[d_i][d_m][d_r], e |-> d_occ.t, p |-> d_r, r |-> TRUE, x |-> d_occ.p]);
           call Chain(d_i, d_m, d_r, Cands(d_m, active[d_i][d_m][d_r], d_occ.t), d_occ, FALSE);
        };
-D2:    if (exc) { return; } else {
+D2:    if (exc) { obs := Append(obs, [k |-> "dispend", i |-> d_i, m |-> d_m, id |-> "", e |-> d_occ.t, p |-> -1, r |-> FALSE, x |-> d_occ.p]); return; } else {
           obs := Append(obs, [k |-> "dispend", i |-> d_i, m |-> d_m, id |-> "", e |-> d_occ.t, p |-> ret, r |-> TRUE, x |-> d_occ.p]);
           d_result := BOr(d_result, ret); d_r := d_r + 1; };
     };
 D3: if ((IF IsB THEN ~HasBit(d_result, 1) ELSE ~Consumed(d_result)) /\ SmCands(d_m, d_occ.t) # <<>>) {
        obs := Append(obs, [k |-> "disp", i |-> d_i, m |-> d_m, id |-> d_m, e |-> d_occ.t, p |-> 0, r |-> TRUE, x |-> d_occ.p]);
        call Chain(d_i, d_m, 1, SmCands(d_m, d_occ.t), d_occ, TRUE);
-D4:    if (exc) { return; } else {
+D4:    if (exc) { obs := Append(obs, [k |-> "dispend", i |-> d_i, m |-> d_m, id |-> "", e |-> d_occ.t, p |-> -1, r |-> FALSE, x |-> d_occ.p]); return; } else {
           obs := Append(obs, [k |-> "dispend", i |-> d_i, m |-> d_m, id |-> "", e |-> d_occ.t, p |-> ret, r |-> TRUE, x |-> d_occ.p]);
           d_result := BOr(d_result, ret); };
     };
@@ -525,19 +554,27 @@ D9: return;
 procedure PEI(p_i, p_m, p_occ, p_src)
   variables p_handled = 0;
 {
-P0: if (Blocked(p_i, p_m, p_occ.t)) { ret := 1; return; };
+P0: if (Blocked(p_i, p_m, p_occ.t)) {
+       ret := 1;
+       if (p_occ.t # "none") { dropped[p_i] := dropped[p_i] \cup {p_occ.p}; };
+       return; };
 P1: if (IsB) {
        if (processing[p_i][p_m]) {
-          mq[p_i][p_m] := Append(mq[p_i][p_m], [occ |-> p_occ, src |-> {"D", "Q"}]); ret := 1; return; };
+          mq[p_i][p_m] := Append(mq[p_i][p_m], [occ |-> p_occ, src |-> {"D", "Q"}, bnd |-> p_i]);
+          if (p_occ.t # "none") { stored[p_i][p_m] := Append(stored[p_i][p_m], p_occ.p); };
+          ret := 1; return; };
     } else if ("pool" \notin p_src) {
        if (processing[p_i][p_m] \/ ("sub" \notin p_src /\ IsDeferredM(p_i, p_m, p_occ.t))) {
           pool[p_i][p_m] := Append(pool[p_i][p_m], PoolEv(p_occ, seqcnt[p_i][p_m] - 1));
           if (~processing[p_i][p_m]) {
-             obs := Append(obs, [k |-> "deferred", i |-> p_i, m |-> p_m, id |-> "state", e |-> p_occ.t, p |-> p_occ.p, r |-> TRUE, x |-> 0]); };
+             obs := Append(obs, [k |-> "deferred", i |-> p_i, m |-> p_m, id |-> "state", e |-> p_occ.t, p |-> p_occ.p, r |-> TRUE, x |-> 0]);
+             defd[p_i] := defd[p_i] \cup {p_occ.p};
+          } else if (p_occ.t # "none") { stored[p_i][p_m] := Append(stored[p_i][p_m], p_occ.p); };
           ret := 4; return;
        } else { seqcnt[p_i][p_m] := seqcnt[p_i][p_m] + 1; };
     };
 P2: processing[p_i][p_m] := TRUE;
+    if (p_occ.t # "none") { dispd[p_i][p_m] := Append(dispd[p_i][p_m], p_occ.p); };
     obs := Append(obs, [k |-> "pei", i |-> p_i, m |-> p_m, id |-> "", e |-> p_occ.t, p |-> p_occ.p, r |-> TRUE, x |-> 0]);
     call DoProcess(p_i, p_m, p_occ, IF IsB THEN (p_m = Def.root \/ "D" \in p_src) ELSE "sub" \notin p_src);
 P3: if (exc) {
@@ -564,11 +601,11 @@ procedure StartRoot(s_i)
   variables s_r = 1;
 {
 S0: if (IsB) { active[s_i][Def.root] := MD(Def.root).init; };   \* backmp11 sets the ids only after the machine's own on_entry
-    running[s_i][Def.root] := TRUE; processing[s_i][Def.root] := IsM;
+    running[s_i][Def.root] := TRUE; processing[s_i][Def.root] := TRUE;   \* events raised by the initial entries are queued
 S1: call Callback("en", s_i, Def.root, Def.root, StartOcc, -1);
 S2: if (IsM) {
        active[s_i][Def.root] := EntryActive(s_i, Def.root, <<>>, "start");
-       if (~UseHist(Def.root, "start")) { pool[s_i][Def.root] := <<>>; };
+       if (~UseHist(Def.root, "start")) { dropped[s_i] := dropped[s_i] \cup PoolPayloads(pool[s_i][Def.root]); pool[s_i][Def.root] := <<>>; };
     };
 S3: while (s_r <= NReg(Def.root)) {
        \* back enters the initial states by type; backmp11 the states the history names
@@ -577,7 +614,7 @@ S4:    s_r := s_r + 1;
     };
 S5: processing[s_i][Def.root] := FALSE;
     if (IsB /\ HasCompl(Def.root)) { call PEI(s_i, Def.root, NoneOcc, {"D"}); };
-S6: if (IsM) { call PoolM(s_i, Def.root, 0); };
+S6: if (IsM) { call PoolM(s_i, Def.root, 0); } else { call DrainB(s_i, Def.root, 0); };
 S7: ret := 0;
 S8: return;
 }
@@ -591,7 +628,7 @@ T2:    t_r := t_r + 1;
     };
 T3: call Callback("ex", t_i, Def.root, Def.root, StopOcc, -1);
 T4: if (HistKind(Def.root) # "none") { hist[t_i][Def.root].last := active[t_i][Def.root]; };
-    if (IsB /\ ~UseHist(Def.root, "stop")) { dq[t_i][Def.root] := <<>>; };
+    if (IsB /\ ~UseHist(Def.root, "stop")) { dropped[t_i] := dropped[t_i] \cup QPayloads(dq[t_i][Def.root]); dq[t_i][Def.root] := <<>>; };
     running[t_i][Def.root] := FALSE;
 T5: ret := 0;
 T6: return;
@@ -613,37 +650,48 @@ M0: while (TRUE) {
           seqcnt := [ii \in Insts |-> [mm \in Machines |-> 0]];
           hist := [ii \in Insts |-> InitHist];
           exc := FALSE; ret := 0; cbn := 0; obs := <<>>;
+          ledger := [ii \in Insts |-> [kk \in LedgerKeys |-> 0]];
+          sawexc := [ii \in Insts |-> FALSE];
+          stored := [ii \in Insts |-> [mm \in Machines |-> <<>>]];
+          dispd := [ii \in Insts |-> [mm \in Machines |-> <<>>]];
+          defd := [ii \in Insts |-> {}]; dropped := [ii \in Insts |-> {}];
+          gvmemo := [gg \in Def.guards |-> "u"];
+          lastcall := [op |-> "none", i |-> 0, e |-> "", p |-> 0]; pre := [blocked |-> FALSE, quiet |-> TRUE, act |-> <<>>];
        } or {
           await Mode = "trace" /\ HasLine /\ CurLine.k = "end";
-          l := l + 1; wasreset := TRUE;
+          l := l + 1; wasreset := TRUE; obs := <<>>;
+          lastcall := [op |-> "none", i |-> 0, e |-> "", p |-> 0];
        } or {
           \* start
           with (ii \in IF Mode = "trace" THEN (IF HasLine /\ CurLine.k = "call" /\ CurLine.op = "start" THEN {CurLine.i} ELSE {})
                        ELSE {jj \in Insts : ~running[jj][Def.root] /\ "start" \in Apis}) {
-             if (Mode = "trace") { l := l + 1; } else { await ncalls < MaxCalls; budget := Budget; path := Append(path, [call |-> "start", i |-> ii, e |-> "", p |-> 0]); };
+             if (Mode = "trace") { l := l + 1; } else { await ncalls < MaxCalls; budget := IF BudgetPerCall \/ ncalls = 0 THEN Budget ELSE budget; path := Append(path, [call |-> "start", i |-> ii, e |-> "", p |-> 0]); };
              ncalls := ncalls + 1; cbn := 0; obs := <<>>; wasreset := FALSE;
              gvmemo := [gg \in Def.guards |-> IF gg \in Def.sticky THEN gvmemo[gg] ELSE "u"];
              lastcall := [op |-> "start", i |-> ii, e |-> "", p |-> 0]; nothrow := TRUE;
+             pre := [blocked |-> FALSE, quiet |-> TRUE, act |-> active[ii]];
              call StartRoot(ii);
           };
        } or {
           \* stop
           with (ii \in IF Mode = "trace" THEN (IF HasLine /\ CurLine.k = "call" /\ CurLine.op = "stop" THEN {CurLine.i} ELSE {})
                        ELSE {jj \in Insts : running[jj][Def.root] /\ "stop" \in Apis}) {
-             if (Mode = "trace") { l := l + 1; } else { await ncalls < MaxCalls; budget := Budget; path := Append(path, [call |-> "stop", i |-> ii, e |-> "", p |-> 0]); };
+             if (Mode = "trace") { l := l + 1; } else { await ncalls < MaxCalls; budget := IF BudgetPerCall \/ ncalls = 0 THEN Budget ELSE budget; path := Append(path, [call |-> "stop", i |-> ii, e |-> "", p |-> 0]); };
              ncalls := ncalls + 1; cbn := 0; obs := <<>>; wasreset := FALSE;
              gvmemo := [gg \in Def.guards |-> IF gg \in Def.sticky THEN gvmemo[gg] ELSE "u"];
              lastcall := [op |-> "stop", i |-> ii, e |-> "", p |-> 0]; nothrow := TRUE;
+             pre := [blocked |-> FALSE, quiet |-> TRUE, act |-> active[ii]];
              call StopRoot(ii);
           };
        } or {
           \* process_event
           with (cc \in IF Mode = "trace" THEN (IF HasLine /\ CurLine.k = "call" /\ CurLine.op = "pe" THEN {[i |-> CurLine.i, e |-> CurLine.e, p |-> CurLine.p]} ELSE {})
                        ELSE {[i |-> jj, e |-> ee, p |-> nextp] : jj \in {kk \in Insts : running[kk][Def.root] /\ "pe" \in Apis}, ee \in EventTypes}) {
-             if (Mode = "trace") { l := l + 1; } else { await ncalls < MaxCalls; budget := Budget; nextp := nextp + 1; path := Append(path, [call |-> "pe", i |-> cc.i, e |-> cc.e, p |-> cc.p]); };
+             if (Mode = "trace") { l := l + 1; } else { await ncalls < MaxCalls; budget := IF BudgetPerCall \/ ncalls = 0 THEN Budget ELSE budget; nextp := nextp + 1; path := Append(path, [call |-> "pe", i |-> cc.i, e |-> cc.e, p |-> cc.p]); };
              ncalls := ncalls + 1; cbn := 0; obs := <<>>; wasreset := FALSE;
              gvmemo := [gg \in Def.guards |-> IF gg \in Def.sticky THEN gvmemo[gg] ELSE "u"];
              lastcall := [op |-> "pe", i |-> cc.i, e |-> cc.e, p |-> cc.p]; nothrow := FALSE;
+             pre := [blocked |-> Blocked(cc.i, Def.root, cc.e), quiet |-> \A mm \in Machines : ~processing[cc.i][mm], act |-> active[cc.i]];
              call PEI(cc.i, Def.root, [t |-> cc.e, p |-> cc.p], IF IsB THEN {"D"} ELSE {"direct"});
           };
        } or {
@@ -654,18 +702,35 @@ M0: while (TRUE) {
              ncalls := ncalls + 1; cbn := 0; wasreset := FALSE;
              obs := <<[k |-> "submit", i |-> cc.i, m |-> Def.root, id |-> "enq", e |-> cc.e, p |-> cc.p, r |-> TRUE, x |-> 0]>>;
              lastcall := [op |-> "enq", i |-> cc.i, e |-> cc.e, p |-> cc.p];
+             pre := [blocked |-> FALSE, quiet |-> TRUE, act |-> active[cc.i]];
              call Enqueue(cc.i, Def.root, [t |-> cc.e, p |-> cc.p]);
           };
        } or {
           \* execute_queued_events / execute_single_queued_event / process_event_pool([1])
           with (cc \in IF Mode = "trace" THEN (IF HasLine /\ CurLine.k = "call" /\ CurLine.op \in {"drain", "drain1"} THEN {[i |-> CurLine.i, op |-> CurLine.op]} ELSE {})
                        ELSE {[i |-> jj, op |-> oo] : jj \in {kk \in Insts : running[kk][Def.root]}, oo \in {"drain", "drain1"} \cap Apis}) {
-             if (Mode = "trace") { l := l + 1; } else { await ncalls < MaxCalls; budget := Budget; path := Append(path, [call |-> cc.op, i |-> cc.i, e |-> "", p |-> 0]); };
+             if (Mode = "trace") { l := l + 1; } else { await ncalls < MaxCalls; budget := IF BudgetPerCall \/ ncalls = 0 THEN Budget ELSE budget; path := Append(path, [call |-> cc.op, i |-> cc.i, e |-> "", p |-> 0]); };
              ncalls := ncalls + 1; cbn := 0; obs := <<>>; wasreset := FALSE;
              gvmemo := [gg \in Def.guards |-> IF gg \in Def.sticky THEN gvmemo[gg] ELSE "u"];
              lastcall := [op |-> cc.op, i |-> cc.i, e |-> "", p |-> 0]; nothrow := FALSE;
+             pre := [blocked |-> FALSE, quiet |-> TRUE, act |-> active[cc.i]];
              if (IsB) { call DrainB(cc.i, Def.root, IF cc.op = "drain1" THEN 1 ELSE 0); }
              else { call PoolM(cc.i, Def.root, IF cc.op = "drain1" THEN 1 ELSE 0); };
+          };
+       } or {
+          \* copy construction / copy assignment of a quiescent machine: instance j becomes a copy of instance i
+          with (cc \in IF Mode = "trace" THEN (IF HasLine /\ CurLine.k = "call" /\ CurLine.op \in {"copy", "assign"} THEN {[i |-> CurLine.i, j |-> CurLine.j, op |-> CurLine.op]} ELSE {})
+                       ELSE {[i |-> ii, j |-> jj, op |-> oo] : ii \in {kk \in Insts : running[kk][Def.root]}, jj \in Insts, oo \in {"copy", "assign"} \cap Apis} \ {[i |-> ii, j |-> ii, op |-> oo] : ii \in Insts, oo \in {"copy", "assign"}}) {
+             if (Mode = "trace") { l := l + 1; } else { await ncalls < MaxCalls; path := Append(path, [call |-> cc.op, i |-> cc.i, e |-> "", p |-> cc.j]); };
+             ncalls := ncalls + 1; cbn := 0; obs := <<>>; wasreset := FALSE;
+             lastcall := [op |-> cc.op, i |-> cc.j, e |-> "", p |-> cc.i];
+             pre := [blocked |-> FALSE, quiet |-> TRUE, act |-> active[cc.i]];
+             active[cc.j] := active[cc.i]; running[cc.j] := running[cc.i]; processing[cc.j] := processing[cc.i];
+             mq[cc.j] := mq[cc.i]; dq[cc.j] := dq[cc.i]; curseq[cc.j] := curseq[cc.i];      \* closures keep the object they were bound to
+             pool[cc.j] := pool[cc.i]; seqcnt[cc.j] := seqcnt[cc.i]; hist[cc.j] := hist[cc.i];
+             ledger[cc.j] := ledger[cc.i]; sawexc[cc.j] := sawexc[cc.i]; stored[cc.j] := stored[cc.i]; dispd[cc.j] := dispd[cc.i];
+             defd[cc.j] := defd[cc.i]; dropped[cc.j] := dropped[cc.i];
+             ret := 0;
           };
        };
 M1:    if (Mode = "trace" /\ ~wasreset) {
